@@ -206,9 +206,8 @@ inline constexpr void Conversion<Unit::SolidAngle, Unit::SolidAngle::SquareArcse
 }
 
 template <typename NumericType>
-inline const std::map<Unit::SolidAngle,
-                      std::function<void(NumericType* values, const std::size_t size)>>
-    MapOfConversionsFromStandard<Unit::SolidAngle, NumericType>{
+inline constexpr auto MapOfConversionsFromStandard<Unit::SolidAngle, NumericType>{
+  MakeConversionTable<Unit::SolidAngle, NumericType>({
       {Unit::SolidAngle::Steradian,
        Conversions<Unit::SolidAngle, Unit::SolidAngle::Steradian>::FromStandard<NumericType>      },
       {Unit::SolidAngle::SquareDegree,
@@ -217,12 +216,12 @@ inline const std::map<Unit::SolidAngle,
        Conversions<Unit::SolidAngle, Unit::SolidAngle::SquareArcminute>::FromStandard<NumericType>},
       {Unit::SolidAngle::SquareArcsecond,
        Conversions<Unit::SolidAngle, Unit::SolidAngle::SquareArcsecond>::FromStandard<NumericType>},
+})
 };
 
 template <typename NumericType>
-inline const std::map<Unit::SolidAngle,
-                      std::function<void(NumericType* const values, const std::size_t size)>>
-    MapOfConversionsToStandard<Unit::SolidAngle, NumericType>{
+inline constexpr auto MapOfConversionsToStandard<Unit::SolidAngle, NumericType>{
+  MakeConversionTable<Unit::SolidAngle, NumericType>({
       {Unit::SolidAngle::Steradian,
        Conversions<Unit::SolidAngle, Unit::SolidAngle::Steradian>::ToStandard<NumericType>      },
       {Unit::SolidAngle::SquareDegree,
@@ -231,6 +230,7 @@ inline const std::map<Unit::SolidAngle,
        Conversions<Unit::SolidAngle, Unit::SolidAngle::SquareArcminute>::ToStandard<NumericType>},
       {Unit::SolidAngle::SquareArcsecond,
        Conversions<Unit::SolidAngle, Unit::SolidAngle::SquareArcsecond>::ToStandard<NumericType>},
+})
 };
 
 }  // namespace Internal
